@@ -115,7 +115,9 @@ func runPool(t *testing.T, c *choice.Stream, r *Result, opt RunOpt, lean bool) {
 					faulty = true
 					continue
 				}
-				progs[u] = append(progs[u], poolOp{Op: "acquire"})
+				// an Acquire may give up early: while waiting for a free slot, or while
+				// the connection it asked for is still being dialled and greeted
+				progs[u] = append(progs[u], poolOp{Op: "acquire", Sleep: time.Duration(c.Pick("acquire.timeout.ms", 30000, 30000, 30000, 2000, 300, 20, 1)) * time.Millisecond})
 				k := c.Range("use.len", 0, 3)
 				for j := 0; j < k; j++ {
 					op := []string{"do-ok", "do-exc", "do-cut", "do-cancel", "ping", "sleep", "stale-release"}[c.Weighted("use.op", 5, 2, 2, 1, 2, 3, 2)]
@@ -473,10 +475,18 @@ func runPool(t *testing.T, c *choice.Stream, r *Result, opt RunOpt, lean bool) {
 							if cl != nil {
 								continue
 							}
-							actx, cancel := context.WithTimeout(ctx, 30*time.Second)
+							to := op.Sleep
+							if to == 0 {
+								to = 30 * time.Second
+							}
+							actx, cancel := context.WithTimeout(ctx, to)
 							x, err := pool.Acquire(actx)
 							cancel()
 							if err != nil {
+								if to < 30*time.Second && !lean {
+									fire("acquire_gave_up")
+								}
+								// without a connection the uses that follow have nothing to act on
 								continue
 							}
 							cl = x
